@@ -57,3 +57,37 @@ Print Assumptions C13_limit.
 Print Assumptions C13_tree_all_histories.
 Print Assumptions C13_listing_all_histories.
 Print Assumptions C13_walk_all_histories.
+
+(* ---------- ANY CONFIGURATION (Proofs/Tcfg*.v): arbitrary codec suffixes and encoded sizes; no hypothesis replaces the
+   plain configuration *)
+From STFS Require Import TcfgThms.
+
+Theorem C13_tree_all_histories_any_config : forall c e r, 0 < c_rs c -> c_readonly c = false ->
+  forallb hb_ok ((CInitialize [slash], e) :: r) = true ->
+  forallb (fun ke => call_ok (fst ke)) r = true -> forallb (fun ke => fs_call (fst ke)) r = true ->
+  wf_tree (db (final c init_sys ((CInitialize [slash], e) :: r))).
+Proof. exact T13_wf_all_histories_any_config. Qed.
+
+Theorem C13_listing_all_histories_any_config : forall c e r, 0 < c_rs c -> c_readonly c = false ->
+  forallb hb_ok ((CInitialize [slash], e) :: r) = true ->
+  forallb (fun ke => call_ok (fst ke)) r = true -> forallb (fun ke => fs_call (fst ke)) r = true ->
+  let p := db (final c init_sys ((CInitialize [slash], e) :: r)) in
+  forall d, good d ->
+    exists l, snd (get_direct_children p d None) = Ok l /\
+      l = filter (fun x => live x && negb (eqb_str (r_name x) [slash]) && eqb_str (path_dir (r_name x)) d) (rows p) /\
+      NoDup (map r_name l) /\
+      (forall x, In x l <-> (In x (lrows p) /\ r_name x <> [slash] /\ path_dir (r_name x) = d)) /\
+      (forall k lk, snd (get_direct_children p d (Some k)) = Ok lk -> exists j, (j <= k)%nat /\ lk = firstn j l).
+Proof. exact T13_listing_all_histories_any_config. Qed.
+
+Theorem C13_walk_all_histories_any_config : forall c e r, 0 < c_rs c -> c_readonly c = false ->
+  forallb hb_ok ((CInitialize [slash], e) :: r) = true ->
+  forallb (fun ke => call_ok (fst ke)) r = true -> forallb (fun ke => fs_call (fst ke)) r = true ->
+  let s := final c init_sys ((CInitialize [slash], e) :: r) in
+  exists l, view c s = map (ent c s) l /\ NoDup l /\
+    forall x, In x l <-> (In x (lrows (db s)) /\ slash_count (r_name x) <= 16).
+Proof. exact T13_view_all_histories_any_config. Qed.
+
+Print Assumptions C13_tree_all_histories_any_config.
+Print Assumptions C13_listing_all_histories_any_config.
+Print Assumptions C13_walk_all_histories_any_config.
